@@ -90,4 +90,24 @@ PROPS.update({
         explanation="theorems: step_internal, lookup_stable (any history of lookups and caller mutations), lookup_returns_original"),
 })
 
+MODEL_API = "hand-written model Victron/Model/{Api,Text}.lean of vedirectapi/registerApi.go over an abstract transport (outcome of VeCommandGet / Ping / GetDeviceId per call — their relation to device bytes is C01–C06), tied to the code by the correspondence (T3) against a reactive simulated device"
+
+PROPS.update({
+    "C09": dict(TABLES, suites=["c09"], trivial=r"^err:other@",
+        rule="every register of the three families (pool of ~150 register instances, 26 distinct (kind, signed, factor, offset, decoder) definitions) x transport outcomes: silent, the three device error flags, an unknown flag, all 256 one-byte raws, two-byte raws (stride; exhaustive per distinct definition in thorough), boundary and random 4/8-byte raws, uninterpretable widths {0,3,5,6,7,9,12}; texts over ASCII, the Unicode spaces, invalid UTF-8 and interior NULs; floats compared bit-exactly (the comparer forms raw/factor+offset with IEEE doubles as the Go expression does); non-trivial = not the silent-device line",
+        trusted_base=[KERNEL, HARNESS, T1, MODEL_API, "bin/check's float realisation of (raw, factor, offset) (Python double arithmetic = Go's on amd64)"],
+        assumptions=["strings.TrimSpace is modelled byte-wise on the UTF-8 encodings of the unicode.IsSpace runes"],
+        explanation="theorems: number_unsigned, number_signed, number_signed_boundary, number_signed_bad_width, text_value, enum_value, enum_undefined (any width, via C14 for every integer), fieldlist_value, transport_error_wrapped (kind preserved + register name), decoders_resolve"),
+    "C10": dict(TABLES, suites=["c10"], trivial=r"^ -> ok M=$",
+        rule="the register list of every product class and random sub-lists with duplicate names/addresses x {complete run, every subset of nil handlers, a cancellation at every position (before the run, inside the k-th callback, during the k-th read), a device failure (silent or each error flag) at every register position, combinations}; the interleaved trace of wire reads and callbacks, the result and the collected map are compared with the model; ReadRegisterList on an identical device compared with the delivered values; the Go oracle states prefix/exactly-once/abort/cancel directly",
+        trusted_base=[KERNEL, HARNESS, T1, MODEL_API, "context.Context (Go)"],
+        assumptions=["a cancellation from another goroutine becomes visible at the next check: only observable positions are enumerated, deterministically; no claim about latency"],
+        explanation="theorems: stream_prefix (any transport, any cancellation point: callbacks = a prefix in order once each, reads = that prefix plus at most the failing register), stream_complete, stream_abort, stream_cancel, nil_group_no_io, all_nil_no_events, collect_last, collect_keys_delivered"),
+    "C11": dict(TABLES, suites=["c11"], exhaustive=True, trivial=r"^err:other$",
+        rule="all 65536 device ids on a healthy simulated device (result kind, product, FNV of the full register list) + failure shapes (silent / garbage / partial / async-only ping, id answer with bad check byte, odd length, too short, one byte, wrong type, non-hex, truncated) x 5 ids; the Go oracle checks object<->error, product = id, list = GetRegisterListByProduct(id), frame order :154 then :451; non-trivial = known ids and shapes",
+        trusted_base=[KERNEL, HARNESS, T1, MODEL_API, MODEL_PROTO],
+        assumptions=["Ping accepts any complete non-async frame as an answer (as the code does; the property says 'answers')"],
+        explanation="theorems: connect_iff (object iff ping and id answered and id of a supported class, via C12.list_by_class for ALL ids), connect_product, connect_err_no_object, connect_no_panic, connect_order (driver model: :154 then, only if answered, :451)"),
+})
+
 NOT_APPLICABLE = {}
